@@ -237,7 +237,7 @@ def run(prop, tier, seed, only_shard=None):
     shards = mod.plan(tier, seed)
     indices = list(range(len(shards))) if only_shard is None else [only_shard]
     # Warm the JIT cache once (from the current working tree) so that shards do not compile concurrently.
-    if getattr(mod, 'WARM', None):
+    if getattr(mod, 'WARM', None) and only_shard is None:
         for extra_env in mod.WARM:
             env = dict(os.environ)
             env.update(extra_env)
